@@ -30,7 +30,7 @@ RULE = ("programs of 1..6 thread slots (manual/managed, nested launches, 0..4 at
         "enumerated on the model); non-trivial = at least two threads of which one is managed")
 NOT_PROVED = []
 
-ACT = re.compile(r"^([LPQRJDACWTYSOI])(\d*)(n?)$")   # trailing n on a launch: the thread gets a name
+ACT = re.compile(r"^([LPQRJDACWTYSOINX])(\d*)(n?)$")   # trailing n on a launch: the thread gets a name
 LAUNCH = "LPQR"   # L: cpu_id -1; P: cpu 0; Q: cpu 1000, first pthread_create fails EINVAL, retried unpinned; R: retry fails too
 
 
@@ -71,6 +71,8 @@ def gen_program(rng, nmax=6, allow_time=True):
                 items += [f"O{fid}"] * rng.choice([1, 1, 2])
         if rng.random() < 0.3:
             items += ["I"] * rng.choice([1, 1, 2])
+        if rng.random() < 0.25:
+            items += ["N"]                                           # aws_thread_current_name
         items += ["C"] * rng.choice([0, 0, 0, 1, 2])
         if use_time and k and rng.random() < 0.5:
             items.append(f"S{rng.choice([1, 100, 400, 1500])}")
@@ -106,11 +108,16 @@ def gen_program(rng, nmax=6, allow_time=True):
                 items.insert(rng.randint(0, len(items)), e)
             if timed or any(i.startswith("T") for i in items):
                 items.append("T0")
-            items.append("W")
-            if rng.random() < 0.3:
+            # the final join-all is issued either directly or through aws_common_library_clean_up (no timeout then)
+            items.append("X" if (not timed and not use_time and rng.random() < 0.3) else "W")
+            if rng.random() < 0.3 and items[-1] == "W":
                 items.append("C")
         acts = items
         bodies[k] = acts
+    if bodies[0] and bodies[0][-1] == "X":
+        # aws_common_library_init racing with the clean-up is the caller's error: keep re-inits out of the other threads
+        for k in range(1, n + 1):
+            bodies[k] = [a for a in bodies[k] if a != "I"]
     ops = [("once %d " % fid + " ".join(map(str, regs))).rstrip() for fid, regs in sorted(once_flags.items())]
     ops += [f"slot {k} {'M' if managed[k] else 'U'} " + " ".join(bodies[k]) for k in range(1, n + 1)]
     ops = [o.rstrip() for o in ops]
@@ -183,6 +190,8 @@ SMALL = [
     # refused joins: a self-join (EDEADLK) must leave the handle JOINABLE so that the owner's join still waits
     ("self-join", ["slot 1 U Y J1 A1 Y", "main L1 Y J1 J1"], (2, 60, 400), (3, 80, 6000)),
     ("self-join-managed-mix", ["slot 1 U J1 L2 A1", "slot 2 M J2", "main J1 L1 J1 W"], (1, 90, 400), (2, 110, 6000)),
+    # shut-down through aws_common_library_clean_up (which must join all managed threads), thread names
+    ("lib-cleanup", ["slot 1 M N", "slot 2 M Y", "main L1n L2 N X"], (2, 80, 400), (3, 100, 6000)),
     ("create-window-3", ["slot 1 M L2n", "slot 2 M L3", "slot 3 M", "main L1n W"], (1, 100, 400), (2, 120, 8000)),
 ]
 
@@ -268,7 +277,9 @@ def oracle(case, lines):
             cbs.setdefault(k, []).append((i, t[3], t[4]))
         elif t[1] == "join":
             k = int(t[2][1:])
-            kv = dict(x.split("=", 1) for x in t[3:])
+            kv = dict(x.split("=", 1) for x in t[3:] if "=" in x)
+            if not all("=" in x for x in t[3:]):
+                errs.append(f"aws_thread_join returned an error code that has no registered name: {l}")
             rc, pre, post, by = kv.get("rc"), kv.get("pre"), kv.get("post"), kv.get("by")
             if rc != "OK":
                 user_join_errors += 1
@@ -282,9 +293,32 @@ def oracle(case, lines):
                 real_joins.setdefault(k, []).append(i)
             elif post != pre:
                 errs.append(f"aws_thread_join on a non-joinable handle of slot {k} changed its state {pre} -> {post}")
+            if kv.get("id") == "BAD":
+                errs.append(f"aws_thread_get_id of slot {k}'s handle is not the id the thread saw itself: {l}")
             if by == f"s{k}" and pre == "JOINABLE" and rc != "AWS_ERROR_THREAD_DEADLOCK_DETECTED":
                 errs.append(f"self-join on slot {k} was not refused: {l}")
             joins.setdefault(k, []).append(i)
+    # thread names: a thread launched with options->name sees that name, others do not
+    named_slot, launcher = {}, {}
+    bodies = {k: v[1] for k, v in prog["slots"].items()}
+    bodies[0] = prog["main"]
+    for j, body in bodies.items():
+        for a in body:
+            if a[0] in LAUNCH and a[1:].rstrip("n").isdigit():
+                named_slot[int(a[1:].rstrip("n"))] = a.endswith("n")
+                launcher[int(a[1:].rstrip("n"))] = j
+
+    def has_name(k, depth=0):   # a pthread inherits its creator's name until it sets its own
+        if k == 0 or depth > 8 or k not in launcher:
+            return False
+        return named_slot.get(k, False) or has_name(launcher[k], depth + 1)
+    for l in P:
+        t = l.split()
+        if t[1] == "name":
+            k = int(t[2][1:])
+            want = "c20-thread" if has_name(k) else "other"
+            if t[3] != want:
+                errs.append(f"aws_thread_current_name on slot {k} gave {t[3]}, expected {want}")
     # run-once
     for k, ok in launch_ok.items():
         r = runs.get(k, [])
@@ -372,7 +406,7 @@ def nontrivial(case):
 
 def distribution(cases, c_out):
     d = {"threads": {}, "managed_slots": 0, "manual_slots": 0, "atexit_regs": 0, "joinall_calls": 0, "timeouts_cfg": 0,
-         "create_fail": 0, "call_once": 0, "once_flags_with_atexit": 0, "lib_reinit": 0, "named_launch": 0, "pinned_launch": 0, "pinned_retry": 0, "pinned_retry_fails": 0, "joinall_ok": 0, "joinall_err": 0, "sync_events": 0, "spurious": 0, "waits": 0, "exhaustive_scheds": 0}
+         "create_fail": 0, "current_name": 0, "lib_cleanup": 0, "call_once": 0, "once_flags_with_atexit": 0, "lib_reinit": 0, "named_launch": 0, "pinned_launch": 0, "pinned_retry": 0, "pinned_retry_fails": 0, "joinall_ok": 0, "joinall_err": 0, "sync_events": 0, "spurious": 0, "waits": 0, "exhaustive_scheds": 0}
     for i, c in enumerate(cases):
         n = c.tags.get("n", 0)
         d["threads"][str(n)] = d["threads"].get(str(n), 0) + 1
@@ -384,11 +418,13 @@ def distribution(cases, c_out):
                 d["managed_slots" if t[2] == "M" else "manual_slots"] += 1
             if t[0] in ("slot", "main"):
                 d["atexit_regs"] += sum(1 for a in t if a.startswith("A"))
-                d["joinall_calls"] += sum(1 for a in t if a == "W")
+                d["joinall_calls"] += sum(1 for a in t if a in ("W", "X"))
                 d["timeouts_cfg"] += sum(1 for a in t if a.startswith("T") and a != "T0")
                 d["named_launch"] += sum(1 for a in t[1:] if a[0] in LAUNCH and a.endswith("n"))
                 d["call_once"] += sum(1 for a in t[1:] if a[0] == "O" and a[1:].isdigit())
                 d["lib_reinit"] += sum(1 for a in t[1:] if a == "I")
+                d["current_name"] += sum(1 for a in t[1:] if a == "N")
+                d["lib_cleanup"] += sum(1 for a in t[1:] if a == "X")
                 d["pinned_launch"] += sum(1 for a in t[1:] if a[0] in "PQR" and a[1:].rstrip("n").isdigit())
                 d["pinned_retry"] += sum(1 for a in t[1:] if a[0] in "QR" and a[1:].rstrip("n").isdigit())
                 d["pinned_retry_fails"] += sum(1 for a in t[1:] if a[0] == "R" and a[1:].rstrip("n").isdigit())
